@@ -48,6 +48,12 @@ def run(rep: Report, prog: Program, tier: str) -> None:
     rep.floor("R9.1", 100)
     rep.floor("R9.2", 40)
     rest(rep, prog)
+    rep.rule("R9.6", "`exc.last_class or UNKNOWN` / `outcome.last_class or UNKNOWN` report the real class: every ErrorClass member is truthy (a plain Enum without __bool__ / zero values), and RetryOutcome / RetryExhaustedError-carrying records are transparent")
+    from .foundations import enums_truthy, records_transparent
+
+    enums_truthy(rep, "R9.6", prog, ["redress.errors:ErrorClass", "redress.errors:StopReason"])
+    records_transparent(rep, "R9.6", prog, ["redress.policy.types:RetryOutcome"])
+    rep.floor("R9.6", 3)
 
 
 def record_by_outcome(rep: Report, r1: str, r2: str, prog: Program) -> None:
@@ -131,7 +137,10 @@ def rest(rep: Report, prog: Program) -> None:
     def inline(fn) -> bool:
         if base_inline(fn):
             return True
-        return fn.cls is not None and fn.cls.qual in POLICY_CLASSES and fn.name.startswith("_") and not fn.name.startswith("__")
+        if fn.cls is None or not fn.name.startswith("_") or fn.name.startswith("__"):
+            return False
+        # a private helper of the policy classes, defined there or in a base class they inherit it from
+        return fn.cls.qual in POLICY_CLASSES or any(prog.find_method(prog.cls(c), fn.name) is fn for c in POLICY_CLASSES)
 
     eng.inline = inline
 
